@@ -4,7 +4,9 @@
 
    A request is what the handler receives: method, RequestURI, protocol version, effective host
    (req.Host, or req.URL.Host when empty), the header map as an association list with distinct keys
-   (in any order: the code sorts the keys), and the body. *)
+   (in any order: the code sorts the keys), and the body READER: the byte stream req.Body delivers
+   and how that stream ends (clean EOF, or a non-EOF error: client gone in the middle of the upload,
+   body shorter than Content-Length, malformed chunked encoding, MaxBytesReader, ...). *)
 From Coq Require Import List ZArith Bool.
 Import ListNotations.
 Local Open Scope Z_scope.
@@ -33,9 +35,14 @@ Fixpoint key_le (a b : list Z) : bool :=
 
 Definition header := (list Z * list (list Z))%type.
 
+(* how the byte stream of req.Body ends: io.EOF (alone or together with the last bytes: io.ReadAll does
+   not tell the two apart); a non-EOF error returned by a Read call of its own (0 bytes) after the last
+   byte; a non-EOF error returned by the same Read call that delivers the last byte *)
+Inductive body_end := EndEOF | EndErr | EndErrWithLast.
+
 Record request := mkReq {
   r_method : list Z; r_requri : list Z; r_major : Z; r_minor : Z; r_host : list Z;
-  r_hdr : list header; r_body : list Z }.
+  r_hdr : list header; r_body : list Z; r_bend : body_end }.
 
 (* requestHeadersToRedact *)
 Definition redact_names : list (list Z) :=
@@ -73,6 +80,23 @@ Fixpoint dec_fuel (fuel : nat) (n : Z) : list Z :=
   end.
 Definition dec (n : Z) : list Z := dec_fuel 20 n.
 
+(* peek, err := io.ReadAll(io.LimitReader(req.Body, maxRequestBodySizeToLog+1)); None = err != nil.
+   The LimitReader answers io.EOF by itself once max_body+1 bytes went through, without calling the body
+   again: an error the body would return in a later Read call is never seen; an error that comes in the
+   same call as byte number max_body+1 is. Below the limit every error is seen. *)
+Definition peek_limit : Z := max_body + 1.
+Definition peek (body : list Z) (e : body_end) : option (list Z) :=
+  let n := Z.of_nat (length body) in
+  let ok := Some (firstn (Z.to_nat peek_limit) body) in
+  match e with
+  | EndEOF => ok
+  | EndErr => if n <? peek_limit then None else ok
+  | EndErrWithLast => if n <=? peek_limit then None else ok
+  end.
+
+Definition body_fails (r : request) : bool :=
+  match peek (r_body r) (r_bend r) with None => true | Some _ => false end.
+
 Definition capped (body : list Z) : list Z :=
   if max_body <? Z.of_nat (length body) then firstn (Z.to_nat max_body) body ++ truncated_note else body.
 
@@ -83,17 +107,27 @@ Definition dump_head (r : request) : list Z :=
   ++ (if has_prefix [104;116;116;112;58;47;47] (r_requri r) || has_prefix [104;116;116;112;115;58;47;47] (r_requri r)
       then [] else match r_host r with [] => [] | h => [72;111;115;116;58;32] ++ h ++ crlf end).
 
-Definition dump_tail (r : request) : list Z := crlf ++ capped (r_body r).
+Definition dump_tail (r : request) : list Z :=
+  match peek (r_body r) (r_bend r) with Some p => crlf ++ capped p | None => [] end.
 
-Definition dump (r : request) : list Z := dump_head r ++ flat_map render (sort_hdr (r_hdr r)) ++ dump_tail r.
+(* `if err != nil { return nil }`: when the body cannot be read NOTHING of the request is dumped *)
+Definition dump (r : request) : list Z :=
+  match peek (r_body r) (r_bend r) with
+  | None => []
+  | Some p => dump_head r ++ flat_map render (sort_hdr (r_hdr r)) ++ crlf ++ capped p
+  end.
+
+(* handlerLogger.ServeHTTP: h.log.Log(logger.Debug, "[conn %v] [c->s] %s", r.RemoteAddr, dumpRequest(r)) *)
+Definition log_request (addr : list Z) (r : request) : list Z :=
+  [91;99;111;110;110;32] ++ addr ++ [93;32;91;99;45;62;115;93;32] ++ dump r.
 
 (* http.Header.Set(k, v) on the association list *)
 Definition set_header (k v : list Z) (r : request) : request :=
   mkReq (r_method r) (r_requri r) (r_major r) (r_minor r) (r_host r)
-        ((k, [v]) :: filter (fun e => negb (beq (fst e) k)) (r_hdr r)) (r_body r).
+        ((k, [v]) :: filter (fun e => negb (beq (fst e) k)) (r_hdr r)) (r_body r) (r_bend r).
 
 Definition with_hdr (r : request) (h : list header) : request :=
-  mkReq (r_method r) (r_requri r) (r_major r) (r_minor r) (r_host r) h (r_body r).
+  mkReq (r_method r) (r_requri r) (r_major r) (r_minor r) (r_host r) h (r_body r) (r_bend r).
 
 (* ------------------------------------------------------------------ CanonicalMIMEHeaderKey *)
 
